@@ -17,9 +17,10 @@ RULE = ("'set' cases: PrefixFileSet::new over 0-7 synthetic directory entries (m
         "distinct by full case text.")
 ASSUMPTIONS = [
     "clock_monotone: SystemTime::now() is non-decreasing (Section hypothesis of the writer theorems)",
-    "file mtimes of surviving log files are distinct and increase in creation order when a writer starts "
-    "(the harness re-stamps them before a restart; with equal mtimes the heap order is unspecified -- "
-    "c19_equal_mtimes_hole_refuted)",
+    "the model runs the heap order (mtime, then path) of the D18 repair; on a tree without that repair equal mtimes "
+    "are reported as suffix-hole-equal-mtimes-D18 (c19_equal_mtimes_hole_refuted / c19_equal_mtimes_fixed)",
+    "before a restart the harness gives the generated files distinct increasing mtimes (real file systems have "
+    "coarse timestamps; whether names then order the files is the open multi-run gap of c19_survivors_are_suffix_partial)",
     "the directory is modified by the writer only (closed world): remove_file/create/write never fail",
     "all sizes and both byte limits are below 2^63 (Vec lengths are at most isize::MAX)",
     "BinaryHeap pops an element of minimal mtime; which one among equals is unspecified (all schedules quantified)",
@@ -260,6 +261,10 @@ def gen(rng, tier):
     cases.append("writer S 131072 65536 0 0 snap e60000 snap e20000 snap e1000 snap e60000 snap e60000 snap")
     cases.append("writer E g0 100 9000 S 65536 65536 0 0 snap e70000 snap e200 snap e66000 snap e65536 snap")
     cases.append("writer E g1 70000 9000 E g2 65000 8000 E o0 99999 5000 S 65536 65536 0 0 snap e100 snap")
+    # D18: pre-existing log files with EQUAL mtimes (equal ages), names in creation order
+    for mk in (100000, 70000, 40000):
+        cases.append("writer E g0 30000 9000 E g1 30000 9000 E p2 30000 9000 E g3 30000 9000 E o4 30000 9000 "
+                     "S 65536 %d 0 0 snap e100 snap e30000 snap e30000 snap e60000 snap" % mk)
     # keep-age: old pre-existing files go at the first event, young ones stay
     cases.append("writer E g0 100 7200000 E g1 100 130000 E g2 100 20000 E p3 100 200000 E o4 100 7200000 S 65536 655360 60 0 snap e100 snap e100 snap")
     # long streams
